@@ -113,6 +113,8 @@ type sysC struct {
 	tpt     *observer
 	// DialPeerAddr call
 	dialPending bool
+	dialYBusy   bool
+	dialYN      int
 	dialDone    bool
 	dialRes     string
 	dialGen     int
@@ -237,6 +239,10 @@ func (s *sysC) Enabled() []string {
 	if s.cfg.dialaddr && !s.dialPending {
 		ev = append(ev, "dialaddr")
 	}
+	if s.cfg.dialaddr && !s.dialYBusy && s.dialYN < 1 {
+		// a legitimate dial of the OTHER peer at the same address (Y may really serve it)
+		ev = append(ev, "dialY")
+	}
 	if s.cfg.dialtpt {
 		if s.tpt == nil {
 			ev = append(ev, "dialtpt+")
@@ -284,6 +290,19 @@ func (s *sysC) Apply(ev string) {
 	switch ev {
 	case "bind:X", "bind:Y", "bind:-":
 		s.bind(strings.TrimPrefix(ev, "bind:"))
+	case "dialY":
+		y := s.keys[2].ID
+		s.dialYBusy = true
+		s.dialYN++
+		go func() {
+			lnk, err := s.ctrl.DialPeerAddr(s.ctx, y, s.dialerOpts("aX"))
+			if err == nil && lnk != nil && lnk.GetRemotePeer() != y {
+				s.note("success-for-y-carries-link-to-other-peer/DialPeerAddr :: DialPeerAddr(Y, aX) returned a link to %s", s.name(lnk.GetRemotePeer()))
+			}
+			s.mu.Lock()
+			s.dialYBusy = false
+			s.mu.Unlock()
+		}()
 	case "dialaddr":
 		s.dialPending, s.dialDone, s.dialRes = true, false, ""
 		s.taint = s.taint || len(s.ctrl.GetPeerLinks(x)) > 0
@@ -482,7 +501,7 @@ func (s *sysC) Canon() string {
 		fmt.Fprintf(&b, " tpt=%v", s.nameList(s.tpt.remotes()))
 	}
 	s.mu.Lock()
-	fmt.Fprintf(&b, " dial=%v/%s", s.dialPending, s.dialRes)
+	fmt.Fprintf(&b, " dial=%v/%s dialY=%v/%d", s.dialPending, s.dialRes, s.dialYBusy, s.dialYN)
 	s.mu.Unlock()
 	return b.String()
 }
